@@ -4,6 +4,7 @@
   Jacobians row-major.  Nothing here is arithmetic; it only routes to the typed model.
 -/
 import ManifModel.Base
+import ManifModel.Api
 import ManifModel.Groups.SO2
 import ManifModel.Groups.SE2
 import ManifModel.Groups.SO3
@@ -463,8 +464,15 @@ def runRn (n : Nat) (_dbg : Bool) (op : String) (mask : Nat) (args : List K) (in
       | _ => none
   | _ => none
 
-/-- dispatch on the group name. -/
-def runGroup (grp : String) (dbg : Bool) (op : String) (mask : Nat) (args : List K)
+def groupSizes (grp : String) : Nat × Nat :=
+  match grp with
+  | "SO2" => (2, 1) | "SE2" => (4, 3) | "SO3" => (4, 3) | "SE3" => (7, 6) | "SE_2_3" => (10, 9)
+  | "SGal3" => (11, 10)
+  | "R1" => (1, 1) | "R2" => (2, 2) | "R3" => (3, 3) | "R5" => (5, 5)
+  | _ => (0, 0)
+
+/-- dispatch on the group name (canonical operation names only). -/
+def runCanonical (grp : String) (dbg : Bool) (op : String) (mask : Nat) (args : List K)
     (ints : List Int) : Option (Except Err (List K)) :=
   match grp with
   | "SO2" => runSO2 dbg op mask args ints
@@ -477,5 +485,23 @@ def runGroup (grp : String) (dbg : Bool) (op : String) (mask : Nat) (args : List
   | "R3" => runRn 3 dbg op mask args ints
   | "R5" => runRn 5 dbg op mask args ints
   | _ => none
+
+/-- aliases are resolved through `Api` (renames, and tangent-side forms with swapped optional
+    outputs), then the canonical member runs. -/
+def runGroup (grp : String) (dbg : Bool) (op : String) (mask : Nat) (args : List K)
+    (ints : List Int) : Option (Except Err (List K)) :=
+  let cop := Api.canonical op
+  if Api.isSwapped op then
+    let (rep, dof) := groupSizes grp
+    (runCanonical grp dbg cop (Api.swapMask mask) args ints).map fun r => r.map fun out =>
+      -- canonical output: value ++ J_m? ++ J_t?   (mask' bit0 = J_m, bit1 = J_t)
+      let wt := mask % 2 == 1      -- the alias' first optional output is J_t
+      let wm := (mask / 2) % 2 == 1
+      let v := out.take rep
+      let rest := out.drop rep
+      let jm := if wm then rest.take (dof * dof) else []
+      let jt := if wt then (rest.drop (if wm then dof * dof else 0)).take (dof * dof) else []
+      v ++ jt ++ jm
+  else runCanonical grp dbg cop mask args ints
 
 end Manif
